@@ -26,6 +26,14 @@ func (x *Exec) builtin(fr *Frame, st *State, b *ssa.Builtin, sargs []ssa.Value, 
 		if _, ok := under(sargs[0].Type()).(*types.Map); ok {
 			n := x.mapLen(st, sargs[0].Type(), v.Term)
 			x.assume(st, Ge(n, IntLit(0)))
+			// an empty map holds no key
+			mi := x.mapInfoOf(sargs[0].Type())
+			bv := make([]*Term, len(mi.kLeaves))
+			for i, l := range mi.kLeaves {
+				bv[i] = BoundVar(fmt.Sprintf("k%d", i), l.Sort)
+			}
+			present := x.mapPresent(st, sargs[0].Type(), v.Term)
+			x.assume(st, Implies(And(Neq(v.Term, x.null()), Eq(n, IntLit(0))), Forall(bv, Not(selectN(present, bv)), []*Term{selectN(present, bv)})))
 			return scalar(resT, Ite(Eq(v.Term, x.null()), IntLit(0), n))
 		}
 		failf("len of %s", sargs[0].Type())
@@ -113,10 +121,16 @@ func (x *Exec) appendModel(fr *Frame, st *State, sargs []ssa.Value, args []*Valu
 					x.facts = append(x.facts, Eq(Select(na, Add(s.Len, IntLit(j))), ev))
 				}
 			} else {
+				// indexed by the position in the result (the trigger is then a plain select; a trigger over
+				// len+j only matches terms that are syntactically sums)
 				j := BoundVar("j", IntSort)
 				tsrc := Select(heap, t.Ref)
-				x.facts = append(x.facts, Forall([]*Term{j}, Implies(And(Le(IntLit(0), j), Lt(j, tl)),
-					Eq(Select(na, Add(s.Len, j)), Select(tsrc, Add(t.Off, j)))), []*Term{Select(na, Add(s.Len, j))}))
+				x.facts = append(x.facts, Forall([]*Term{j}, Implies(And(Le(s.Len, j), Lt(j, newLen)),
+					Eq(Select(na, j), Select(tsrc, Add(t.Off, Sub(j, s.Len))))), []*Term{Select(na, j)}))
+				// and indexed by the position in the appended slice (matches contract terms written as len + j)
+				j2 := BoundVar("j", IntSort)
+				x.facts = append(x.facts, Forall([]*Term{j2}, Implies(And(Le(IntLit(0), j2), Lt(j2, tl)),
+					Eq(Select(na, Add(s.Len, j2)), Select(tsrc, Add(t.Off, j2)))), []*Term{Select(na, Add(s.Len, j2))}))
 			}
 		}
 		st.heap[key] = Store(heap, ref, na)
